@@ -657,6 +657,82 @@ def gen_magic_lookalike(rng, variant):
     return pkg
 
 
+# ---------------------------------------------------------------- build-constraint variant files
+def variant_plan(rng, goversion):
+    """(tag, own|import, environment mode) of one run: pairs of files constrained on T / !T"""
+    m = re.match(r"go1\.(\d+)", goversion)
+    newest = int(m.group(1)) if m else 21
+    plan = [("cgo", "import", "cgo-unset"), ("cgo", "import", "cgo-1"), ("cgo", "own", "cgo-unset"), ("cgo", rng.choice(["own", "import"]), "default"),
+            ("go1.%d" % newest, "own", "default"), ("go1.%d" % newest, "import", "default"), ("go1.%d" % max(2, newest // 2), rng.choice(["own", "import"]), "default"),
+            ("custom", "import", "default")]
+    for t in ("linux", "amd64", "unix", "gc"):
+        plan.append((t, rng.choice(["own", "import"]), "default"))
+    return plan
+
+
+def _variant_funcs(rng, tag, which):
+    _UNI_PARAMS[0] = False
+    out = []
+    for name in ("Variant", "OnlyOn" if which == "on" else "OnlyOff"):
+        f = gen_func(rng, name, None, None)
+        f["params"] = [g for g in f["params"] if g["ty"] in ("string", "int", "bool")]
+        f["doc"] = {"style": "line", "text": "%s is what the %s variant (%s%s) declares. Second sentence." % (name, which, "" if which == "on" else "!", tag)}
+        f["imp_prefix"] = which + "@"            # the token the body prints: which variant's code ran
+        f["file"] = 0
+        f["variant_added"] = True
+        out.append(f)
+    return out
+
+
+def gen_variants(rng, tag, where, envmode):
+    pkg = gen_package(rng, unicode=False, cli=False, nfiles=rng.choice([1, 2]), size=rng.choice([2, 4]))
+    used = {go_lower(x) for x in package_identifiers(pkg)} | {go_lower(h["name"]) for h in pkg["helpers"]}
+    if where == "own" and ({"variant", "onlyon", "onlyoff"} & used):
+        pkg["funcs"] = [f for f in pkg["funcs"] if f["recv"] or go_lower(f["name"]) not in ("variant", "onlyon", "onlyoff")]
+    pkg["variant"] = {"tag": tag, "where": where, "envmode": envmode,
+                      "funcs": {"on": _variant_funcs(rng, tag, "on"), "off": _variant_funcs(rng, tag, "off")}}
+    if where == "import":
+        akeys = {go_lower(k) for v in pkg["vars"] for sp in v["specs"] for x in sp["values"] if "map" in x for k, _ in x["map"]}
+        plain = {go_lower(f["name"]) for f in pkg["funcs"] if not f["recv"]} | akeys
+        alias = None if not ({"variant", "onlyon", "onlyoff", "plain"} & plain) and rng.random() < 0.5 else "vl"
+        base = gen_func(rng, "Plain", None, None)
+        base["params"] = [g for g in base["params"] if g["ty"] in ("string", "int", "bool")]
+        base["imp_prefix"], base["key_prefix"], base["file"] = "imp~varlib.", (alias + ":") if alias else "", 0
+        for fs in pkg["variant"]["funcs"].values():
+            for f in fs:
+                f["imp_prefix"] = "imp~varlib." + f["imp_prefix"]
+                f["key_prefix"] = (alias + ":") if alias else ""
+        pkg["imports"] = [{"name": "varlib", "path": "imp/varlib", "alias": alias, "funcs": [base]}]
+    return pkg
+
+
+def variant_reset(pkg):
+    """forget an earlier selection (a replayed case is selected afresh)"""
+    pkg["funcs"] = [f for f in pkg["funcs"] if not f.get("variant_added")]
+    for imp in pkg.get("imports", []):
+        imp["funcs"] = [f for f in imp["funcs"] if not f.get("variant_added")]
+
+
+def variant_select(pkg, which):
+    v = pkg["variant"]
+    (pkg["funcs"] if v["where"] == "own" else pkg["imports"][0]["funcs"]).extend(v["funcs"][which])
+
+
+def variant_files(pkg, pname):
+    v = pkg.get("variant")
+    if not v:
+        return {}
+    out = {}
+    for which in ("on", "off"):
+        cons = ("" if which == "on" else "!") + v["tag"]
+        text = "\n".join(render_func(f) for f in v["funcs"][which])
+        if v["where"] == "own":
+            out["var_%s.go" % which] = "//go:build mage && %s\n\npackage main\n\nimport \"example.test/%s/probe\"\n\n%s" % (cons, pname, text)
+        else:
+            out["imp/varlib/var_%s.go" % which] = "//go:build %s\n\npackage varlib\n\nimport \"example.test/%s/probe\"\n\n%s" % (cons, pname, text)
+    return out
+
+
 def gen_with_imports(rng):
     """a package that mage:import's two packages (one bare, one under an alias) whose target names coincide with
     names of the magefile's own namespace METHODS and with prefixes of its target names"""
@@ -1169,7 +1245,7 @@ def coq_pkg(pkg, docs, pkgdoc):
     """docs: {def-id: (doc, syn)} as the real go/doc reports them"""
     ds = []
     for f in pkg["funcs"]:
-        doc, syn = docs.get(def_id(f), ("", ""))
+        doc, syn = docs.get((f["recv"][0] + "." if f["recv"] else "") + f["name"], ("", ""))
         recv = "None" if not f["recv"] else "(Some (%s, %s))" % (coq_str(f["recv"][0]), coq_bool(f["recv"][1]))
         ps = coq_list(["{| pnames := %s; pty_ := %s |}" % (coq_list([coq_str(n) for n in g["names"]]), coq_pty(g["ty"])) for g in f["params"]])
         rs = coq_list(["{| rnames := %d; rkind_ := %s |}" % (g["names"], {"error": "RKError", "local": "RKLocal", "other": "RKOther"}[g["kind"]]) for g in f["res"]])
